@@ -24,7 +24,11 @@ func gen(h *lp.H, do func(string) string, im *impl) {
 			nextAlias = 3
 		}
 		h.Case(fmt.Sprintf("up %d policy=%s qos=%s pre=%s", c, pol, qos, pre))
-		if out := do(fmt.Sprintf("open %s %s %s", pol, qos, pre)); !strings.HasPrefix(out, "ok") {
+		def := ""
+		if rng.Intn(3) == 0 {
+			def = " def" // the sent storage the library picks by default
+		}
+		if out := do(fmt.Sprintf("open %s %s %s%s", pol, qos, pre, def)); !strings.HasPrefix(out, "ok") {
 			continue
 		}
 		outstanding := map[int]bool{}
@@ -112,6 +116,14 @@ func gen(h *lp.H, do func(string) string, im *impl) {
 				}
 				track(do(fmt.Sprintf("ack %s %s", r, a)))
 				sig += "a"
+			case k == 15 && rng.Intn(2) == 0 && qos == "r":
+				// transport failure at this position: between ops / right after a chunk arrived, before its ack / with a chunk in flight
+				op := []string{"kill", "killafter", "killdrop"}[rng.Intn(3)]
+				track(do(op))
+				for q := range outstanding {
+					delete(outstanding, q) // retransmitted and acknowledged during the resume (reliable) or dropped with the store
+				}
+				sig += "K"
 			default:
 				track(do("state"))
 				sig += "s"
